@@ -365,6 +365,10 @@ func (g *ProgGen) DiceTerm() string {
 				return s
 			}
 		case 12:
+			if g.r.Chance(1, 3) {
+				// the count chosen by a conditional whose branches end in literals
+				return "(" + g.intLeaf() + " ? " + strconv.Itoa(g.r.Range(1, 3)) + " : " + strconv.Itoa(g.r.Range(1, 3)) + ")d" + sides()
+			}
 			return "(" + g.Int() + ")d" + sides()
 		case 13:
 			return cnt() + "d(" + g.lit() + ")"
